@@ -1,5 +1,6 @@
 import KoordVerif.Model.C17
 import KoordVerif.Model.C17Cache
+import KoordVerif.Model.C17Arb
 import KoordVerif.Generated.C17
 /-
 Tie lemmas: the guard order the model assumes is the guard order of /repo's current controller.go
@@ -70,5 +71,19 @@ theorem tie_allocate_once_forced : C17.allocateOnceAssign = ["0:ptr.To[bool](tru
 theorem tie_syncStatus_succeeded_iff_allocate_once :
     C17.syncStatusSucceededCond = "apiext.IsReservationAllocateOnce(reservation)" ∧
     C17.isAllocateOnceReturns = ["ptr.Deref[bool](r.Spec.AllocateOnce, true)"] := by decide
+
+/-- the arbitrator's `Create` handler returns early for a nil object and for a job whose phase is Failed / Succeeded /
+    Aborted, and only then calls `AddPodMigrationJob` (model: `arbStep true … .add` with `finPh`; without this guard the
+    clause is refuted: arbitrator_terminal_forever_counterexample) -/
+def createHandlerStepsModel : List String :=
+  ["return if evt.Object == nil",
+   "return if job.Status.Phase == v1alpha1.PodMigrationJobFailed || job.Status.Phase == v1alpha1.PodMigrationJobSucceeded || job.Status.Phase == v1alpha1.PodMigrationJobAborted",
+   "AddPodMigrationJob"]
+
+theorem tie_create_handler_guard : KoordVerif.Generated.C17.createHandlerSteps = createHandlerStepsModel := by rfl
+
+/-- the model's guard is the same three phases: Succeeded (3), Failed (4), Aborted (5) -/
+theorem tie_create_handler_guard_phases :
+    ∀ p, p < 7 → finPh p = (p == Ph.succeeded || p == Ph.failed || p == 5) := by decide
 
 end KoordVerif.C17
